@@ -663,6 +663,76 @@ func main() {
 		f.defStrList("tryReconnectSteps", calls)
 	}
 
+	// 9. handler.handle: table lookups in source order, and the milestones that precede doCall
+	f.comment("handler.handle: map lookups in source order; rpcError codes / decode steps / doCall in source order")
+	{
+		var lookups, miles []string
+		if fd := p.funcDecl("handler", "handle"); fd != nil {
+			ast.Inspect(fd.Body, func(n ast.Node) bool {
+				switch x := n.(type) {
+				case *ast.IndexExpr:
+					base := selString(x.X)
+					if base == "s.methods" || base == "s.aliasedMethods" {
+						lookups = append(lookups, p.src(x))
+					}
+				case *ast.CallExpr:
+					switch callName(x) {
+					case "rpcError":
+						if len(x.Args) >= 3 {
+							miles = append(miles, "rpcError "+p.src(x.Args[2]))
+						}
+					case "doCall":
+						miles = append(miles, "doCall")
+					case "json.Unmarshal":
+						miles = append(miles, "json.Unmarshal "+p.src(x.Args[0]))
+					case "dec":
+						miles = append(miles, "paramDecoder")
+					case "chOut":
+						miles = append(miles, "chOut")
+					case "withLazyWriter":
+						miles = append(miles, "respond")
+					}
+					if se, ok := x.Fun.(*ast.SelectorExpr); ok && se.Sel.Name == "Decode" {
+						miles = append(miles, "Decode param")
+					}
+				case *ast.BinaryExpr:
+					if x.Op == token.NEQ && strings.Contains(p.src(x), "nParams") {
+						miles = append(miles, "arity "+p.src(x))
+					}
+				}
+				return true
+			})
+		}
+		f.defStrList("handleLookups", lookups)
+		f.defStrList("handleMilestones", miles)
+	}
+
+	// 10. NewMethodNameFormatter: the three ingredients of the formatted name
+	f.comment("NewMethodNameFormatter: return expressions and the lower-first expression")
+	{
+		var rets []string
+		lower := ""
+		if fd := p.funcDecl("", "NewMethodNameFormatter"); fd != nil {
+			ast.Inspect(fd.Body, func(n ast.Node) bool {
+				switch x := n.(type) {
+				case *ast.ReturnStmt:
+					if len(x.Results) == 1 {
+						if _, isFn := x.Results[0].(*ast.FuncLit); !isFn {
+							rets = append(rets, p.src(x.Results[0]))
+						}
+					}
+				case *ast.AssignStmt:
+					if len(x.Lhs) == 1 && selString(x.Lhs[0]) == "formattedMethod" && x.Tok == token.ASSIGN {
+						lower = p.src(x.Rhs[0])
+					}
+				}
+				return true
+			})
+		}
+		f.defStrList("formatterReturns", rets)
+		f.defStr("formatterLowerExpr", lower, lower != "")
+	}
+
 	f.lean.WriteString("\nend Jrpc.Generated\n")
 	if *leanOut != "" {
 		if err := os.WriteFile(*leanOut, f.lean.Bytes(), 0o644); err != nil {
